@@ -49,7 +49,9 @@ def run(ctx):
     ctx.lib(["Pauli/PauliCheck", "Pauli/PauliProofs2"])
     ctx.translate("GenPauli", gen_pauli.generate)
     if not any(o["name"] == "translator:GenPauli" and not o["ok"] for o in ctx.obligations):
-        ctx.props()
+        ok, _ = ctx.props()
+        if ok and ctx.thorough:
+            ctx.coqchk()
     else:
         ctx.oblige("props:C09", "theorem", False, "not compiled: translator failed")
 
